@@ -1,14 +1,22 @@
 #!/bin/sh
-# usage: tools/seed_test.sh <seed-name> <property> <worktree> <outdir>
-# confirms a seeded change (demo passes on /repo, fails on the worktree, suite unchanged), runs the check against it
-name="$1"; prop="$2"; wt="$3"; out="$4"
+# usage: tools/seed_test.sh <seed-name> <property> <worktree(ignored)> <outdir>
+# Confirms a seeded change on a FRESH worktree of /repo HEAD with <outdir>/patch.diff applied:
+# demo passes on /repo, fails on the changed tree, baseline suite unchanged, then runs the check against it.
+name="$1"; prop="$2"; out="$4"
 dst=/verif/seeded/$name; mkdir -p "$dst"
 cp "$out/patch.diff" "$out/demo.py" "$dst/" 2>/dev/null
+wt=/tmp/mut/apply_$name
+git -C /repo worktree remove --force "$wt" 2>/dev/null; rm -rf "$wt"
+git -C /repo worktree add -q --detach "$wt" HEAD || exit 2
+if ! git -C "$wt" apply "$out/patch.diff"; then echo "PATCH DOES NOT APPLY"; git -C /repo worktree remove --force "$wt"; exit 2; fi
+so=$(cd /verif && VERIF_REPO=$wt /venv/bin/python -c "from harness import common; print(common.build_rust())")
+cp "$so" "$wt/src/pendulum/_pendulum.cpython-312-x86_64-linux-gnu.so"
 echo "== demo on original"; PYTHONPATH=/repo/src /venv/bin/python "$out/demo.py" >/dev/null 2>&1; o=$?; echo "exit=$o"
-echo "== demo on changed tree"; PYTHONPATH=$wt/src /venv/bin/python "$out/demo.py" 2>&1 | tail -2; PYTHONPATH=$wt/src /venv/bin/python "$out/demo.py" >/dev/null 2>&1; c=$?; echo "exit=$c"
-echo "== baseline on changed tree"; b=$(/venv/bin/python /verif/tools/baseline_check.py "$wt" | tail -1); echo "$b"
+echo "== demo on changed tree"; PYTHONPATH=$wt/src /venv/bin/python "$out/demo.py" 2>&1 | tail -n 2; PYTHONPATH=$wt/src /venv/bin/python "$out/demo.py" >/dev/null 2>&1; c=$?; echo "exit=$c"
+echo "== baseline on changed tree"; b=$(/venv/bin/python /verif/tools/baseline_check.py "$wt" | tail -n 1); echo "$b"
 echo "== check $prop against changed tree"
-VERIF_REPO=$wt ./check "$prop" > "$dst/check_output.txt" 2>&1; k=$?; tail -3 "$dst/check_output.txt"; echo "check exit=$k"
-rp=$(grep -o 'replay=[^ ]*' "$dst/check_output.txt" | head -1 | cut -d= -f2)
-[ -n "$rp" ] && cp "$rp" "$dst/replay.json"
+(cd /verif && VERIF_REPO=$wt ./check "$prop" > "$dst/check_output.txt" 2>&1); k=$?; tail -n 3 "$dst/check_output.txt"; echo "check exit=$k"
+rp=$(grep -o 'replay=[^ ]*' "$dst/check_output.txt" | head -n 1 | cut -d= -f2)
+[ -n "$rp" ] && cp "/verif/$rp" "$dst/replay.json"
 echo "demo_original_exit=$o demo_changed_exit=$c baseline='$b' check_exit=$k" > "$dst/result.txt"
+git -C /repo worktree remove --force "$wt"
